@@ -43,6 +43,7 @@ type concSession struct {
 	Overlap  bool   `json:"started_while_first_revoke_was_open"`
 
 	at, rt   string
+	hold     chan struct{}
 	sealed   string
 	redirect string
 	rs       *sut.Resp
@@ -86,8 +87,11 @@ func variant(base string, j int, atEnd bool) string {
 	return mark + base[len(mark):]
 }
 
-func genConc(i int, r *rand.Rand, seed int64) *concCase {
+func genConc(i int, r *rand.Rand, seed int64, nTimeout int) *concCase {
 	c := &concCase{Index: i, Relation: relations[i%len(relations)], Pattern: concPatterns[(i/len(relations))%len(concPatterns)]}
+	if i < nTimeout {
+		c.Pattern = []string{"first-timeout-others-ok", "first-ok-others-timeout"}[(i/len(relations))%2]
+	}
 	size := 2 + (i/(len(relations)*len(concPatterns)))%2
 	tag := fmt.Sprintf("s%dc%d", seed, i)
 	atBase := jwtLike(r, 200+r.Intn(700), tag)
@@ -128,6 +132,10 @@ func genConc(i int, r *rand.Rand, seed int64) *concCase {
 			s.Outcome = fail()
 		case "first-ok-others-already-revoked":
 			s.Outcome = map[bool]string{true: "ok-200", false: "already-revoked-400"}[first]
+		case "first-timeout-others-ok":
+			s.Outcome = map[bool]string{true: "timeout", false: "ok-200"}[first]
+		case "first-ok-others-timeout":
+			s.Outcome = map[bool]string{true: "ok-200", false: "timeout"}[first]
 		}
 		if c.Relation == "same-session" && j > 0 {
 			s.Outcome = c.Sessions[0].Outcome // one token, one script
@@ -175,7 +183,10 @@ func signInCode(as *sut.AuthStack, cookie, email, at string) (code, asked bool, 
 
 func runConcurrent(w *world, rep *vh.Report, env vh.Env, only int) {
 	n := env.Pick(120, 1500)
-	vh.ForEach(n, 8, only, func(i int) { runConcGroup(w, rep, env, i) })
+	vh.ForEach(n, 16, only, func(i int) { runConcGroup(w, rep, env, i) })
+	if env.Replay == "" {
+		rep.Floor("concurrent_timeout_requests_judged", env.Pick(4, 16))
+	}
 	for _, rel := range relations {
 		min := env.Pick(4, 100)
 		if env.Replay != "" {
@@ -188,7 +199,7 @@ func runConcurrent(w *world, rep *vh.Report, env vh.Env, only int) {
 func runConcGroup(w *world, rep *vh.Report, env vh.Env, i int) {
 	as, idp := w.as, w.as.IdP
 	r := vh.CaseRNG(env.Seed, streamConc, i)
-	c := genConc(i, r, env.Seed)
+	c := genConc(i, r, env.Seed, env.Pick(12, 24))
 	rep.Eval()
 	now := time.Now()
 	hold := make(chan struct{})
@@ -204,6 +215,19 @@ func runConcGroup(w *world, rep *vh.Report, env vh.Env, i int) {
 		}
 		a := revokeAnswer(s.Outcome, r, nil)
 		a.Hold = h
+		if s.Outcome == "timeout" {
+			// held until THIS request has been answered (beyond the provider client's timeout); the very
+			// same session twice shares one token, hence one script and one channel (closed by the first)
+			if c.Relation != "same-session" {
+				s.hold = make(chan struct{})
+				a.Hold = s.hold
+			} else {
+				if c.Sessions[0].hold == nil {
+					c.Sessions[0].hold = make(chan struct{})
+				}
+				a.Hold = c.Sessions[0].hold
+			}
+		}
 		idp.Set("revoke", s.rt, a)
 		idp.Set("revoke", s.at, a)
 		idp.Set("introspect", s.at, sut.IntrospectOK(true))
@@ -231,6 +255,9 @@ func runConcGroup(w *world, rep *vh.Report, env vh.Env, i int) {
 			s.rs = as.Client.Do(sut.Req{Method: "POST", Host: as.Host, Target: as.Path("sign_out"),
 				Cookies: []string{as.CookieName + "=" + s.sealed}, Body: []byte(form.Encode()),
 				Headers: [][2]string{{"Content-Type", "application/x-www-form-urlencoded"}}})
+			if s.hold != nil {
+				close(s.hold)
+			}
 		}()
 	}
 	isDone := func(j int) bool {
@@ -278,6 +305,12 @@ func runConcGroup(w *world, rep *vh.Report, env vh.Env, i int) {
 		return
 	}
 	for _, s := range c.Sessions {
+		// the fake IdP logs a call when it ends: let calls released after the response reach the log
+		for t := 0; t < 2000 && s.Outcome == "timeout" && revokeSeen(idp, s) && len(ownCalls(idp, s)) == 0; t++ {
+			time.Sleep(time.Millisecond)
+		}
+	}
+	for _, s := range c.Sessions {
 		if s.rs == nil || s.rs.Err != nil {
 			preFail(rep)
 			return
@@ -323,7 +356,12 @@ func runConcGroup(w *world, rep *vh.Report, env vh.Env, i int) {
 		if rs.Status/100 == 3 && rs.Location() != s.redirect {
 			rep.Violate(streamConc, i, "auth sign_out POST: not returned to exactly redirect_uri"+tag, who+fmt.Sprintf("; Location %q, own return address %q", rs.Location(), s.redirect), c)
 		}
+		if s.Outcome == "timeout" {
+			rep.Count("concurrent_timeout_requests_judged", 1)
+		}
 		switch {
+		case signedOut && s.Outcome == "timeout":
+			rep.Violate(streamConc, i, "auth sign_out POST: signed out although revocation failed [timeout]"+tag, who+"; the IdP's revoke endpoint did not answer before the response", c)
 		case signedOut && !okBefore:
 			rep.Violate(streamConc, i, "auth sign_out POST: signed out without revoking the token at the IdP"+tag, who+"; no revoke call for THIS session's token completed before the response", c)
 		case signedOut && !succ:
